@@ -10,7 +10,9 @@ import time
 from bounded import nixgen as G
 from specs.nixlex import DQ_D, DQ_N, DQ_R, dq_decode, dq_state
 
-STR_ALPHABET = ["a", '"', "\\", "$", "{", "}", "\n", "\r", "\t", " ", "é", "'", "#", "\x00", "\x7f"]
+STR_ALPHABET = ["a", '"', "\\", "$", "{", "}", "\n", "\r", "\t", " ", "é", "'", "#", "\x00", "\x7f",
+                # control characters that C / JSON have escapes for but Nix does not (a backslash before them means the letter)
+                "\x0c", "\x0b", "\x08", "\x1b"]
 INTS = [0, 1, -1, 42, -7, 10 ** 20, -(10 ** 20)]
 FLOATS = [0.5, 1.0, -2.5, 3.14, 1e16, 1e-07, 123456.789, -0.0, 0.0, 1e100, 5e-324, -1.0]
 
